@@ -75,6 +75,20 @@ impl Sys {
     }
 }
 
+/// Every distinct call-site description this process has handed to a receiver (announced in an
+/// accepted event, or contained in restored metadata): what the process-wide arena may retain.
+static DISTINCT_SITES: std::sync::OnceLock<std::sync::Mutex<HashSet<Site>>> = std::sync::OnceLock::new();
+
+fn note_site(site: Site) {
+    DISTINCT_SITES.get_or_init(Default::default).lock().unwrap().insert(site);
+}
+
+fn note_restored(pm: &PersistedMetadata) {
+    for (_, d) in pm.iter() {
+        note_site(Site::from_real(d));
+    }
+}
+
 fn pm_line(text: &str) -> String {
     let mut tree = json::parse(text).expect("metadata JSON");
     json::sort_numeric_keys(&mut tree);
@@ -195,15 +209,74 @@ pub fn run_lines(lines: &[String], oracles: bool) -> RunResult {
                 }
                 _ => rr.out.obs.push("bad-op".into()),
             },
+            Some("leakprobe") => {
+                // C09, last clause: what the process retains for call sites is bounded by the number of
+                // distinct descriptions, not by the number of executions. The same small execution
+                // (restore, a span, an event, persist) is repeated; once everything is interned the live
+                // heap of this thread must not grow with the number of repetitions. No host is installed
+                // (a recording host would grow its own log).
+                let n: usize = t.num().unwrap_or(200);
+                // (cases that run under the degraded hash use descriptions of their own, like all C09 cases)
+                let target = t.next().unwrap_or("leakprobe").to_owned();
+                let sink = crate::hosts::NoHostYet::default();
+                let none = Dispatch::new(sink.clone());
+                let sites: Vec<Site> = (0..6).map(|i| Site { is_span: i % 2 == 0, level: 2, name: format!("leak{i}"), target: target.clone(), module_path: None, file: Some("src/leak.rs".into()), line: Some(i), fields: vec!["a".into(), "b".into()] }).collect();
+                let (mut pm_text, mut ps_text) = dispatcher::with_default(&none, || {
+                    let mut r = TracingEventReceiver::default();
+                    for (i, s) in sites.iter().enumerate() {
+                        note_site(s.clone());
+                        let _ = r.try_receive(Ev::NewCallSite { id: 9000 + i as u64, site: s.clone() }.to_real());
+                    }
+                    let _ = r.try_receive(Ev::NewSpan { id: 1, parent: None, mt: 9000, values: vec![] }.to_real());
+                    let pm = r.persist_metadata();
+                    let (ps, _) = r.persist();
+                    (serde_json::to_string(&pm).unwrap(), serde_json::to_string(&ps).unwrap())
+                });
+                // (the descriptions interned here get the next interning numbers, as in the driver)
+                for m in sink.seen.lock().unwrap().iter() {
+                    let _ = crate::hosts::meta_index(m);
+                }
+                let mut marks = vec![];
+                for i in 0..n + 20 {
+                    if i == 20 || i == n + 19 {
+                        marks.push(crate::heap::live());
+                    }
+                    let (a, b) = dispatcher::with_default(&none, || {
+                        let pm: PersistedMetadata = serde_json::from_str(&pm_text).unwrap();
+                        let ps: PersistedSpans = serde_json::from_str(&ps_text).unwrap();
+                        let mut r = TracingEventReceiver::new(pm, ps, LocalSpans::default());
+                        let _ = r.try_receive(Ev::NewSpan { id: 2, parent: None, mt: 9002, values: vec![] }.to_real());
+                        let _ = r.try_receive(Ev::NewEvent { mt: 9001, parent: None, values: vec![] }.to_real());
+                        let _ = r.try_receive(Ev::Dropped(2).to_real());
+                        let pm = r.persist_metadata();
+                        let (ps, _) = r.persist();
+                        (serde_json::to_string(&pm).unwrap(), serde_json::to_string(&ps).unwrap())
+                    });
+                    pm_text = a;
+                    ps_text = b;
+                }
+                let grown = marks[1] - marks[0];
+                if grown > 16 * n as isize {
+                    fail!("C09 the live heap grows by {grown} bytes over {n} executions of the same program on the same call sites ({} bytes per execution): memory retained is not bounded by the number of distinct descriptions", grown / n as isize);
+                }
+                rr.out.tags.push("leakprobe".into());
+            }
             Some("stats") => {
                 let (strings, metadata) = tracing_tunnel::verif::verif_arena_stats();
                 rr.out.obs.push(format!("stats {strings} {metadata}"));
-                // C09: memory retained for call sites is bounded by the distinct descriptions
-                let distinct: HashSet<String> = c09_seen.values().cloned().collect();
-                let _ = distinct;
+                // C09: memory retained for call sites is bounded by the distinct descriptions: the
+                // arena holds one metadata object per distinct description this process ever handed
+                // to a receiver, however many ids, executions and restores there were
+                let distinct = DISTINCT_SITES.get_or_init(Default::default).lock().unwrap().len();
+                if metadata != distinct {
+                    fail!("C09 the process-wide arena holds {metadata} metadata objects, but only {distinct} distinct call-site descriptions have been announced or restored in this process");
+                }
             }
             Some("ev") => {
                 let e = Ev::parse(&mut t).expect("event");
+                if let Ev::NewCallSite { site, .. } = &e {
+                    note_site(site.clone());
+                }
                 let real = e.to_real();
                 sys.host.state.lock().unwrap().tag = guest_of(&e);
                 let news_before = sys.host.state.lock().unwrap().news.len();
@@ -626,6 +699,7 @@ pub fn run_lines(lines: &[String], oracles: bool) -> RunResult {
                             // iteration order; the harness numbers the new metadata objects afterwards in
                             // ascending order of the (smallest) call-site id they stand for, as the driver does
                             let sink = crate::hosts::NoHostYet::default();
+                            note_restored(&pm);
                             let r = dispatcher::with_default(&Dispatch::new(sink.clone()), || TracingEventReceiver::new(pm, ps, local));
                             let mut fresh: Vec<(u64, &'static tracing_core::Metadata<'static>)> = sink
                                 .seen
@@ -643,6 +717,7 @@ pub fn run_lines(lines: &[String], oracles: bool) -> RunResult {
                             }
                             r
                         } else {
+                            note_restored(&pm);
                             dispatcher::with_default(&sys.dispatch, || TracingEventReceiver::new(pm, ps, local))
                         });
                         rr.out.obs.extend(sys.host.take_log());
@@ -713,6 +788,7 @@ pub fn run_lines(lines: &[String], oracles: bool) -> RunResult {
                             sys.map_lost = true;
                             let pm: PersistedMetadata = serde_json::from_str(&sys.last_pm).unwrap();
                             let ps: PersistedSpans = serde_json::from_str(&sys.last_ps).unwrap();
+                            note_restored(&pm);
                             sys.recv = Some(dispatcher::with_default(&sys.dispatch, || TracingEventReceiver::new(pm, ps, LocalSpans::default())));
                             rr.out.obs.extend(sys.host.take_log());
                             sys.lifetime_stack = sys.host.state.lock().unwrap().stack.clone();
@@ -1256,6 +1332,9 @@ fn gen_c09(rng: &mut Rng) -> Vec<String> {
     let mut next_id = 100u64;
     let mut span = 0u64;
     let mut kept: Vec<u64> = vec![];
+    if rng.chance(1, 10) {
+        lines.push(format!("leakprobe {} {}", rng.range(100, 300), if weak { "leakprobe::wk" } else { "leakprobe" }));
+    }
     lines.push("stats".into());
     for round in 0..rng.range(2, 4) {
         for site in &variants {
@@ -1285,7 +1364,11 @@ fn gen_c09(rng: &mut Rng) -> Vec<String> {
                 lines.push(format!("ev drp {s}"));
             }
         }
-        let op = *rng.pick(&["h persist keep", "h persist lose", "h persist losenew", "h discard"]);
+        // (cold = the state is brought up in a process that has never seen these descriptions: every
+        // id of the restored metadata is interned in one go, equal descriptions under several ids included)
+        let cold = format!("h persist cold:{}c{round}", rng.next() % 1_000_000);
+        // (not under the degraded hash: there every new description lengthens the one bucket all cases share)
+        let op = if weak || rng.chance(3, 4) { *rng.pick(&["h persist keep", "h persist lose", "h persist losenew", "h discard"]) } else { cold.as_str() };
         lines.push(op.to_owned());
         lines.push("stats".into());
         if op == "h discard" {
